@@ -54,7 +54,7 @@ pub fn run(run: &RunInfo) -> Summary {
             depth: if noisy || related { depth - 1 } else { depth },
             ops: if related { rel_ops.clone() } else { all_ops.clone() },
             dangling: None,
-            reservation_menu: vec![Outcome::Ok, Outcome::Abort(0x6c), Outcome::Abort(0xfc), Outcome::NoStatus, Outcome::OkExtraStatus, Outcome::StatusThenAbort(0x6c)],
+            reservation_menu: vec![Outcome::Ok, Outcome::Abort(0x6c), Outcome::Abort(0xfc), Outcome::NoStatus, Outcome::OkExtraStatus, Outcome::StatusThenAbort(0x6c), Outcome::StatusWithoutReceipt],
             commit_menu: vec![Outcome::Ok, Outcome::Abort(0x6c)],
             cancel_menu: vec![Outcome::Ok, Outcome::Abort(0xb4)],
             eod_menu: vec![Eod::Completion],
@@ -88,7 +88,7 @@ pub fn run(run: &RunInfo) -> Summary {
                 depth: 0,
                 ops: all_ops.clone(),
                 dangling: None,
-                reservation_menu: vec![Outcome::Ok, Outcome::Abort(0x6c), Outcome::Abort(0xfc), Outcome::NoStatus, Outcome::OkExtraStatus, Outcome::StatusThenAbort(0x6c)],
+                reservation_menu: vec![Outcome::Ok, Outcome::Abort(0x6c), Outcome::Abort(0xfc), Outcome::NoStatus, Outcome::OkExtraStatus, Outcome::StatusThenAbort(0x6c), Outcome::StatusWithoutReceipt],
                 commit_menu: vec![Outcome::Ok, Outcome::Abort(0x6c)],
                 cancel_menu: vec![Outcome::Ok, Outcome::Abort(0xb4)],
                 eod_menu: vec![Eod::Completion],
